@@ -88,6 +88,11 @@ def run(ck):
                                  key="C18.R1|EarlyStopping|lookback-index")
                 else:
                     ck.ok("C18.R1", inst + ":lookback index [%s]" % _c(p), osite, indices=idxs)
+                # a path on which the earlier evaluation was found to be exactly 0 has an unbounded relative deviation by definition
+                zero_ref = True in cond_truths(p, lambda k: k[0] == "eq" and (k[1].is_zero() or k[2].is_zero()) and any(x.startswith("M[") for x in (k[1].syms() | k[2].syms())))
+                if zero_ref:
+                    ck.check(not stops, "C18.R2", inst + ":no stop when the reference evaluation is 0 [%s]" % _c(p), osite, "training is stopped although the relative deviation from a zero reference is unbounded")
+                    continue
                 ck.check(look in idxs and ("cur" in idxs or "-1" in idxs), "C18.R1", inst + ":compares current with lookback [%s]" % _c(p), osite,
                          "the criterion does not read both the current evaluation and the one p evaluations earlier (indices read: %s)" % idxs,
                          key="C18.R1|EarlyStopping|lookback-index")
@@ -99,6 +104,27 @@ def run(ck):
                         okgate = True
                 ck.check(okgate, "C18.R1", inst + ":enough history [%s]" % _c(p), osite,
                          "the criterion is evaluated without establishing that more than p evaluations exist (needs len >= p+1)", key="C18.R1|EarlyStopping|history-gate")
+                # ---------------- R2 the deviation is defined for every history, zeros included: a division of two Python floats raises
+                # ZeroDivisionError when the divisor is 0.0 (numpy scalars give inf instead); monitored values are Python floats
+                for dsite, dterm, _dc, dval in getattr(it, "divisions", []):
+                    if "early_stopping" not in dsite:
+                        continue
+                    pyfloat = isinstance(dval, VNum) and dval.kind in ("float", "int") and not dval.pos
+                    mon = dterm is not None and any(x.startswith("M[") or x.startswith("V[") for x in dterm.syms())
+                    from ..interp import _cond_key
+
+                    guarded = False
+                    for c_ in _dc:
+                        t_ = getattr(c_[3] if len(c_) > 3 else None, "term", None)
+                        if t_ is None:
+                            continue
+                        key_, flip_ = _cond_key(t_)
+                        if key_[0] == "eq" and {repr(key_[1]), repr(key_[2])} == {repr(dterm), repr(T.ZERO)} and (c_[2] != flip_) is False:
+                            guarded = True  # the path established divisor != 0
+                    if mon and not guarded:
+                        ck.check(not pyfloat, "C18.R2", inst + ":deviation defined when an earlier evaluation is exactly 0 [%s]" % _c(p), dsite,
+                                 "the criterion divides by %r, a Python float that is 0.0 for histories the property quantifies over (sequences containing zeros): ZeroDivisionError aborts training where the "
+                                 "deviation is simply unbounded (no stop)" % (dterm,), key="C18.R2|EarlyStopping|division-by-zero-evaluation")
                 # ---------------- R2 criterion formula and strict comparison
                 devc = [c for c in p.conds if len(c) > 3 and getattr(c[3], "term", None) is not None and _is_cmp(c[3].term)]
                 dev = None
